@@ -15,7 +15,8 @@ func c10Cfg() *DeclCfg {
 		PNamespace: 20, PShortOnly: 15, PLongOnly: 15, PBase: 40,
 		PPos: 70, PosMax: 5, PRest: 50, PExec: 30, PByTag: 50, PSubOptional: 60, PAliases: 20,
 		ParserOpts: []flags.Options{0, flags.PassDoubleDash, flags.PassDoubleDash, flags.HelpFlag | flags.PassDoubleDash, flags.PassAfterNonOption, flags.PassDoubleDash | flags.IgnoreUnknown, flags.PassDoubleDash | flags.PassAfterNonOption, flags.PassDoubleDash | flags.PassAfterNonOption | flags.HelpFlag},
-		PosTypes:   []TypeSpec{{K: KString}, {K: KString}, {K: KInt}, {K: KFloat64}, {K: KDuration}, {K: KCelsius}, {K: KUint8}, {K: KPoint}},
+		PosTypes:   []TypeSpec{{K: KString}, {K: KString}, {K: KInt}, {K: KFloat64}, {K: KDuration}, {K: KCelsius}, {K: KUint8}, {K: KPoint}, {K: KInt, W: WMap, MapKey: KString}, {K: KString, W: WMap, MapKey: KString}},
+		PNamedRest: 35, PPosSplit: 30, PPosLongTag: 10,
 	}
 }
 
